@@ -30,7 +30,7 @@ NEEDED_FEATURES = [
     "filters", "mixed_discrete", "two_cont_choices", "two_cont_states", "stochastic",
     "stoch_multi_dep", "period_transition", "period_utility", "period_filter",
     "period_constraint", "leave_above", "leave_below", "log_grid", "aux_params",
-    "constraint_params", "poison", "excluded_states",
+    "constraint_params", "poison", "excluded_states", "two_stochastic",
 ]
 
 
